@@ -10,6 +10,7 @@ import (
 	"reflect"
 	"sync"
 	"time"
+	"unsafe"
 
 	"github.com/kelindar/bitmap"
 	"github.com/kelindar/column/commit"
@@ -63,6 +64,9 @@ func vCallAnonErr(res *error, name string, captured []any, args ...any) {}
 
 func vImplies(a, b bool) bool { return !a || b }
 
+// vKeep copies a loop-contract parameter before vBody (the parameter itself is re-bound to the next iteration's value).
+func vKeep[T any](x T) T { return x }
+
 // vSame is bit-for-bit equality (for floats: equality of the bit patterns, so NaN == NaN and 0 != -0).
 func vSame[T comparable](a, b T) bool {
 	switch x := any(a).(type) {
@@ -89,6 +93,17 @@ func vDistinctBacking(a, b any) bool {
 // vSameSlice: the two slices are the same view (same position and length) of the same backing array.
 func vSameSlice[T any](a, b []T) bool {
 	return len(a) == len(b) && (len(a) == 0 || &a[0] == &b[0])
+}
+
+// vStringSeparate: the string's bytes do not live in the backing array of the byte slice.
+func vStringSeparate(s string, b []byte) bool {
+	if len(s) == 0 || cap(b) == 0 {
+		return true
+	}
+	ps := (*reflect.StringHeader)(unsafe.Pointer(&s)).Data
+	b = b[:cap(b)]
+	pb := uintptr(unsafe.Pointer(&b[0]))
+	return ps+uintptr(len(s)) <= pb || pb+uintptr(len(b)) <= ps
 }
 
 // vFresh: the pointer designates storage allocated during the execution under contract.
@@ -145,7 +160,20 @@ func vModelLatchRLock(m *smutex.SMutex128, shard uint) {
 	vAssert("lock:latch-not-write-held", !vLatchW[shard%128])
 	vAssert("lock:rank-latch-first", vColR == 0 && !vColW && vOtherW == 0)
 	vLatchR[shard%128]++
+	vLastRLatch, vOrsSinceLatch, vAndsSinceLatch = shard, 0, 0
+	vRLatches++
 }
+
+// ghost: the shard of the last read latch taken, and the Or / And operations performed since
+var (
+	vLastRLatch      uint
+	vRLatches        int // read latches taken so far
+	vOrsSinceLatch   int
+	vAndsSinceLatch  int
+	vOrDst, vOrSrc   bitmap.Bitmap // receiver (as it was) and operand of the last Or / And
+	vAndDst, vAndSrc bitmap.Bitmap
+	vAndLatched      bool // the last And ran with exactly the last read latch held
+)
 
 //@ model smutex.(*SMutex128).RUnlock
 func vModelLatchRUnlock(m *smutex.SMutex128, shard uint) {
@@ -254,6 +282,8 @@ func vModelBitmapCount(dst bitmap.Bitmap) int {
 func vModelBitmapAnd(dst *bitmap.Bitmap, other bitmap.Bitmap, extra ...bitmap.Bitmap) {
 	vAssert("model:and-one-operand", len(extra) == 0)
 	vLastBitOp = 1
+	vAndsSinceLatch++
+	vAndDst, vAndSrc, vAndLatched = *dst, other, vLatchR[vLastRLatch%128] > 0
 	d := *dst
 	old := append([]uint64(nil), d...)
 	n := len(d)
@@ -292,6 +322,8 @@ func vModelBitmapAndNot(dst *bitmap.Bitmap, other bitmap.Bitmap, extra ...bitmap
 func vModelBitmapOr(dst *bitmap.Bitmap, other bitmap.Bitmap, extra ...bitmap.Bitmap) {
 	vAssert("model:or-one-operand", len(extra) == 0)
 	vLastBitOp = 3
+	vOrsSinceLatch++
+	vOrDst, vOrSrc = *dst, other
 	d := *dst
 	old := append([]uint64(nil), d...)
 	vHavocRange(d)
@@ -329,6 +361,7 @@ func vNoLatchWriteHeld() bool {
 //@ model column.Column.Index
 func vModelColumnIndex(c Column, chunk commit.Chunk) bitmap.Bitmap {
 	vLastIndexChunk, vLastIndexOf = chunk, vNondet[bitmap.Bitmap]()
+	vAssume(len(vLastIndexOf) <= chunkSize/64) // a block's window
 	return vLastIndexOf
 }
 
@@ -390,6 +423,23 @@ func (l *vLogger) Append(c commit.Commit) error {
 	return nil
 }
 
+// The recorder of a snapshot in progress (a commit.Log): Append is checked like a logger's and counted separately.
+var (
+	vRecCount   int
+	vRecLastID  uint64
+	vRecLastChk commit.Chunk
+	vRecUpdates int
+)
+
+//@ model commit.(*Log).Append
+func vModelLogAppend(l *commit.Log, c commit.Commit) error {
+	vAssert("record:inside-latch-of-its-block", vLatchW[uint(c.Chunk)%128])
+	vAssert("record:id-nonzero", c.ID != 0)
+	vRecCount++
+	vRecLastID, vRecLastChk, vRecUpdates = c.ID, c.Chunk, len(c.Updates)
+	return vNondet[error]()
+}
+
 // bitmap.MinZero: the first zero bit, or (0, false) when every word is full.
 //
 //@ model bitmap.(Bitmap).MinZero
@@ -418,10 +468,10 @@ var (
 
 var (
 	vTreeLess    func(a, b sortIndexItem) bool // ghost: comparator of the tree under contract
-	vTreeSets    int                          // ghost: number of Set calls
-	vTreeDeletes int                          // ghost: number of Delete calls
-	vTreeLastSet sortIndexItem                // ghost: last item passed to Set
-	vTreeLastDel sortIndexItem                // ghost: last item passed to Delete
+	vTreeSets    int                           // ghost: number of Set calls
+	vTreeDeletes int                           // ghost: number of Delete calls
+	vTreeLastSet sortIndexItem                 // ghost: last item passed to Set
+	vTreeLastDel sortIndexItem                 // ghost: last item passed to Delete
 )
 
 //@ model btree.NewBTreeG
@@ -486,12 +536,12 @@ var (
 // operation that can fail returns an arbitrary error or nil.
 
 var (
-	vOpenFiles    int
-	vTempFiles    int
-	vOpenTempErr  error // ghost: what the last OpenTemp returned
-	vCopyErr      error // ghost: what the last Log.Copy returned
-	vWriteErr     error // ghost: what the last writeState returned
-	vCopies       int
+	vOpenFiles   int
+	vTempFiles   int
+	vOpenTempErr error // ghost: what the last OpenTemp returned
+	vCopyErr     error // ghost: what the last Log.Copy returned
+	vWriteErr    error // ghost: what the last writeState returned
+	vCopies      int
 )
 
 //@ model commit.OpenTemp
@@ -632,6 +682,7 @@ var (
 	vLoadCalls     int
 	vLoadName      string
 	vLoadResult    *column
+	vLoadFirst     *column // result of the first lookup since vLoadCalls was reset
 )
 
 //@ model column.(*columns).Load
@@ -640,6 +691,9 @@ func vModelColumnsLoad(c *columns, name string) (*column, bool) {
 	vLoadName = name
 	if vNondet[bool]() {
 		vLoadResult = nil
+		if vLoadCalls == 1 {
+			vLoadFirst = nil
+		}
 		return nil, false
 	}
 	col := vNondet[*column]()
@@ -649,6 +703,9 @@ func vModelColumnsLoad(c *columns, name string) (*column, bool) {
 		vAssume(ok && si != nil && si.btree != nil)
 	}
 	vLoadResult = col
+	if vLoadCalls == 1 {
+		vLoadFirst = col
+	}
 	return col, true
 }
 
@@ -663,6 +720,16 @@ var (
 func vModelPoolPut(p *sync.Pool, x any) {
 	vPoolPuts++
 	vPoolLastPut = x
+}
+
+// vPoolGets counts Get calls; what Get hands out is whatever the pool's constructor returns (an item nobody else
+// holds: that is the pool's contract as long as every item is put back at most once).
+var vPoolGets int
+
+//@ model sync.(*Pool).Get
+func vModelPoolGet(p *sync.Pool) any {
+	vPoolGets++
+	return p.New()
 }
 
 // columns.Range (the registry lives in an atomic.Value): the delegate runs for one arbitrary registered column.
@@ -713,12 +780,12 @@ func vModelLoadWithIndex(c *columns, columnName string) ([]*column, bool) {
 // iostream.Writer as a ghost token log with failure injection: every write either appends a token (kind 1 = uvarint,
 // 2 = range header, 3 = a buffer written by itself) or fails with vWErr; vWFailed records that some write failed.
 var (
-	vWN     int
-	vWKind  [8]uint8
-	vWVal   [8]uint64
+	vWN      int
+	vWKind   [8]uint8
+	vWVal    [8]uint64
 	vWFailed bool
-	vWErr   error
-	vWBlock int // the block WriteRange's delegate ran for
+	vWErr    error
+	vWBlock  int // the block WriteRange's delegate ran for
 )
 
 func vWToken(kind uint8, val uint64) error {
